@@ -58,12 +58,33 @@ func (c *EvalCtx) state() *State {
 	return c.post
 }
 
-type evalErr struct{ msg string }
+type evalErr struct {
+	msg   string
+	undef bool // the expression has no value here (log entry that does not exist): not a binding error in a guarded position
+}
 
 func (e evalErr) Error() string { return e.msg }
 
 func fail(format string, a ...interface{}) {
-	panic(evalErr{fmt.Sprintf(format, a...)})
+	panic(evalErr{msg: fmt.Sprintf(format, a...)})
+}
+
+func failUndef(format string, a ...interface{}) {
+	panic(evalErr{msg: fmt.Sprintf(format, a...), undef: true})
+}
+
+// evalGuarded evaluates the consequent of an implication; ok is false when it has no value on this path.
+func (c *EvalCtx) evalGuarded(e *Expr) (t *Term, ok bool) {
+	defer func() {
+		if r := recover(); r != nil {
+			if ee, isE := r.(evalErr); isE && ee.undef {
+				t, ok = nil, false
+				return
+			}
+			panic(r)
+		}
+	}()
+	return c.asBool(c.eval(e)), true
 }
 
 // EvalBool evaluates a boolean contract expression.
@@ -576,7 +597,7 @@ func (c *EvalCtx) index(base, idx Value) Value {
 	case CRecs:
 		n, ok := idx.(CNum)
 		if !ok || !n.N.IsInt64() || int(n.N.Int64()) >= len(x.Recs) {
-			fail("record index out of range")
+			failUndef("record index out of range")
 		}
 		r := x.Recs[n.N.Int64()]
 		return CLit{Name: r.Kind, Fields: r.Fields, Order: r.Order}
@@ -633,7 +654,13 @@ func (c *EvalCtx) binary(e *Expr) Value {
 		if a == TFalse {
 			return VBool{TTrue}
 		}
-		return VBool{Implies(a, c.asBool(c.eval(e.Args[1])))}
+		// a consequent without a value (it names a log entry this path does not have) can only be excused by a
+		// false antecedent
+		b, ok := c.evalGuarded(e.Args[1])
+		if !ok {
+			return VBool{Not(a)}
+		}
+		return VBool{Implies(a, b)}
 	case "<==>":
 		return VBool{Iff(c.asBool(c.eval(e.Args[0])), c.asBool(c.eval(e.Args[1])))}
 	}
